@@ -14,7 +14,7 @@ REGISTRY = {}  # fq -> FunctionSpec instance
 
 def register(cls):
     inst = cls()
-    REGISTRY[inst.fq] = inst
+    REGISTRY[inst.key or inst.fq] = inst
     return cls
 
 
@@ -57,6 +57,7 @@ def else_guard(cases):
 
 class FunctionSpec:
     fq = None
+    key = None  # registry key when several specs (harnesses) are attached to one function
     props = ()
     callees = ()  # fqs whose contracts are used (instead of their bodies) when verifying this one
     level = "proof"  # or "bounded"
@@ -213,7 +214,7 @@ class VerifyResult:
     def meta(self):
         fi = get_repo().func(self.spec.fq)
         return {
-            "function": self.spec.fq,
+            "function": self.spec.key or self.spec.fq,
             "file": fi.module.path,
             "lines": list(fi.span()),
             "sha256": fi.sha256(),
@@ -241,7 +242,7 @@ def verify(spec, tier="quick", summaries=None, only_props=None):
             summ[fq] = REGISTRY[fq].summary()
     if summaries:
         summ.update(summaries)
-    short = spec.fq.split(":")[1]
+    short = (spec.key or spec.fq).split(":")[1]
     for variant in spec.variants(tier):
         ex = Explorer()
         vname = "" if variant is None else "{%s}" % (variant if isinstance(variant, str) else ",".join(str(x) for x in variant))
